@@ -120,8 +120,8 @@ structure Kernel where
   bits : Nat               -- number of aliasing configuration bits
   allowed : List Nat       -- parameters the function may write by design (private helpers only; `[]` if public)
   isPublic : Bool
-  ret : Option Var         -- the variable returned on this path
-  retAllowed : List Nat    -- parameters the return value may alias (used at call sites)
+  rets : List (Var × List Nat)   -- returned variables (the value itself, then one per named field of a returned
+                                 -- record) with the parameters each may alias (used at call sites)
   ir : Program
   deriving Repr
 
@@ -131,8 +131,6 @@ def Kernel.check (k : Kernel) : Bool :=
   decide (maxBit k.ir ≤ k.bits) && (!k.isPublic || k.allowed.isEmpty) &&
   (List.range (2 ^ k.bits)).all (fun c =>
     (writtenArgs k.nargs k.ir c).all (fun j => k.allowed.contains j) &&
-    (match k.ret with
-     | some r => (returnAliases k.nargs k.ir c r).all (fun j => k.retAllowed.contains j)
-     | none => true))
+    k.rets.all (fun r => (returnAliases k.nargs k.ir c r.1).all (fun j => r.2.contains j)))
 
 end ScnVerif.Heap
